@@ -316,6 +316,7 @@ def lifecycle(ctx: Ctx):
             if expose is not False:
                 F["layout"].append((f"recompile[{k}]", f"recompile compiles the layout expose={expose!r}: the helper is defined at the top "
                                     "level of the exec'd text, i.e. in the exec locals, and is not visible from the generated function"))
+        res["facts"]["parse_args_wrong"] = [repr(e[1]) for e in r["log"] if e[0] == "parse" and e[1] is not T1]
         execs = [e for e in r["log"] if e[0] == "exec" and e[4]]
         res["facts"]["execs"] = len(execs)
         before_objs = {id(o_) for kk, (vv, _cc) in r["before"].items() for o_ in [vv]}
